@@ -4,6 +4,51 @@ import json, subprocess
 
 # id -> (technique, level text, level note, design ref)
 CHECKS = {
+ "C03": ("exhaustive leaf sweep over all unit spellings + proptest expression trees; differential oracle against exact dimensional arithmetic (RefDim) over the direct unit definitions",
+         "Every single-identifier spelling of every prelude unit (alias x accepted prefix, long and short) is evaluated on every run, and depth-bounded random expression trees (* / ^ + - unary minus, dyadic rational exponents, respelled same-dimension operands) are compared in base units with an independent evaluation: exponent vectors exactly, magnitudes to 1e-9.",
+         "The direct unit definitions exported by the hook are the specification (a wrong constant in a .nbt file is out of reach); RefDim's recursion, prefix table and extended-exponent arithmetic are trusted.",
+         "DESIGN.md §4 C03"),
+ "C04": ("exhaustive enumeration of ordered same-dimension unit pairs + proptest compound unit expressions; oracle = requested factor list, RefDim physical value, round trip, via-intermediate agreement, displayed form",
+         "All 2105 ordered same-dimension unit pairs x sampled magnitudes (0, 1, negative, large) plus generated compound conversions with shared factors, expansions by definition and right-hand magnitudes; each conversion is checked for exactly the requested unit (raw factor list and display), unchanged physical value, restoring round trip and agreement through an intermediate unit.",
+         "RefDim base factors (1e-12 accurate) decide 'same quantity' at 1e-9; the display parser reads `n unit` / `n x k unit` texts.",
+         "DESIGN.md §4 C04"),
+ "C05": ("proptest unit products + enumerated unit pairs + fixed seeds; metamorphic oracle raw value vs displayed/printed/interpolated value",
+         "The unsimplified value of `let v = e` (hook) is compared with what the three display paths show: same base-unit vector, same magnitude (1e-9), identical text on all paths, converting the displayed value back restores the raw magnitude, and `e -> U` keeps exactly U.",
+         "RefDim as in C03; one recorded finding class (overflow when merging into extreme units) is matched by signature and reported as KNOWN-FINDING.",
+         "DESIGN.md §4 C05"),
+ "C11": ("exhaustive enumeration of ordered same-dimension unit pairs x magnitude regimes; algebraic laws + reference ordering",
+         "Twelve comparisons per operand pair for all ordered unit pairs in separated, converted, ulp-neighbourhood, NaN, inf, zero and same-unit regimes; mirror symmetry, negation, trichotomy and NaN laws are checked and, for separated operands, agreement with the RefDim ordering.",
+         "The recorded operand-order rounding asymmetry is keyed on 'exact ratio within 2^-40 of 1'; everything else is reported.",
+         "DESIGN.md §4 C11"),
+ "C12": ("exhaustive enumeration of ordered same-dimension unit pairs; metamorphic oracle (a+b vs b+a, a-b vs -(b-a)) + reference sum",
+         "All ordered unit pairs with signed magnitudes, zero operands, opposite operands, compound units and three-operand sums in 8 orders: physical agreement between orders and with the RefDim sum, identical unit/value/display when the units differ in size.",
+         "RefDim decides 'differ in size' (1e-9) and the reference sums.",
+         "DESIGN.md §4 C12"),
+ "C13": ("exhaustive enumeration of the finite alias x prefix x spelling table; oracle = decorators + independent prefix table",
+         "All ~33 000 candidate identifiers (every alias with every long and short prefix spelling, bare aliases, near misses) are classified on every run by evaluation and by the session's prefix parser; accepted forms must read as exactly (prefix, unit) with value 1 and display in a form that reads back; rejected forms must not read as that unit; uniqueness over the whole table.",
+         "Acceptance is derived from the unit metadata exported by the hook; the arcsecond `″` finding is keyed per unit.",
+         "DESIGN.md §4 C13"),
+ "C14": ("proptest over f64 classes x format options; round-trip oracle (displayed text -> literal -> value) against Rust's exact decimal formatting",
+         "800 000 (thorough 32 M) values from targeted f64 classes with every documented separator, thresholds 1-10 and 1-17 significant digits: keywords for NaN/inf, the text re-read by Rust and by numbat gives x rounded to the shown digits (either neighbour within 1 ulp of a midpoint), integers below 2^53 keep all digits and are grouped iff the threshold is reached.",
+         "Rust's `{:.Ne}` formatting is the reference rounding.",
+         "DESIGN.md §4 C14"),
+ "C19": ("proptest over instants x zones x durations; oracle = independent integer-nanosecond arithmetic + algebraic relations + format/parse round trip",
+         "Instants over the whole supported range in 16 IANA zones with durations in 14 units across 10 orders of magnitude: t+d equals the integer-nanosecond result, (t+d)-t = d, (t+d)-d = t, zone conversion keeps the instant, full-precision formatting parses back to the same instant, and out-of-range results are errors of the out-of-range kinds.",
+         "jiff's Timestamp <-> civil conversion is used by the harness to write the instants; seconds per unit come from RefDim.",
+         "DESIGN.md §4 C19"),
+ "C20": ("proptest payloads x input templates; oracle = tag whitelist + un-escape round trip against the plain-text rendering",
+         "36 templates covering results, prints, echoes and every error stage, with payloads built from HTML metacharacters: the HTML rendering (HtmlFormatter / HtmlWriter exactly as numbat-wasm uses them) may contain only the renderer's own spans, and un-escaping the rest must reproduce the plain rendering.",
+         "The plain renderings (PlainTextFormatter, termcolor::NoColor) are the reference text.",
+         "DESIGN.md §4 C20"),
+ "C21": ("proptest assertions with reference truth values (boolean trees, exact dyadic arithmetic, RefDim-separated quantities) + marker statements",
+         "assert / assert_eq(a,b) / assert_eq(a,b,eps) over booleans, quantities in equal and different units (including the exact boundary |a-b| = eps and NaN), strings and lists; success iff the documented predicate, the right failure kind, and nothing after a failed assertion runs.",
+         "Expected outcomes are decided exactly (dyadic values) or with a margin >= 10 % (different units).",
+         "DESIGN.md §4 C21"),
+ "C23": ("proptest over each inverse pair's domain; round-trip oracle with per-pair tolerances",
+         "Temperature scales, 19 scalar inverse compositions, Unix time in s/ms/µs, Unix/Julian instants, unit_list and the fixed mixed-unit conversions: g(f(x)) = x within a stated per-pair tolerance; mixed-unit parts add up, are whole numbers but the last, descending and non-negative.",
+         "Tolerances are derived from conditioning and stated in the harness source.",
+         "DESIGN.md §4 C23"),
+
  "C17": ("exhaustive enumeration of ordered module pairs + proptest subsets/orders; metamorphic oracle (order A vs order B session digests)",
          "All 1891 unordered (3782 ordered) module pairs are imported in both orders into fresh sessions on every run and every definition (function signatures, unit definitions and metadata, dimensions, raw variable values) is compared; random larger subsets in random orders and repeated imports in addition. Exhaustive for pairs, sampled for larger sets.",
          "Trusts the verif-hooks accessors for raw values and unit metadata; module dependency graph (for the non-triviality rule only) is read from `use` lines.",
